@@ -467,6 +467,7 @@ pub fn run_one(c: &mut Case, opts: &GenOpts) {
         Ok(ch) => {
             c.l.count("connections_checked");
             c.l.add("requests_served", ch.served as u64);
+            c.l.add("reads_abandoned_while_pending", invs.iter().map(|i| u64::from(i.abandoned_reads)).sum());
             c.l.add("management_replies_matched", ch.replies_seen as u64);
             if served < case.reqs.len() {
                 c.l.count("connections_closed_without_keep_conn");
@@ -503,6 +504,7 @@ pub fn run(ctx: &Ctx, evidence: Option<&PathBuf>) -> i32 {
     ctx.gate("pending_writes_injected", 50);
     ctx.gate("vectored_write_cut_in_header", 20);
     ctx.gate("pending_replies_verified_before_epilogue", 20);
+    ctx.gate("reads_abandoned_while_pending", 20);
     ctx.finish(
         "exploration",
         "connections of 1..5 requests (all roles, every flag byte, bodies empty..multi-record, management / unknown / stray records) through Token::run on a deterministic waker-driven executor; \
